@@ -1142,6 +1142,63 @@ def run(ctx):
                                       impl=repr(rep)[:300])
                 if set(rep) - {'mismatch'}:
                     ctx.violation(case, "unexpected exception / not-implemented entries", impl=repr(rep)[:300])
+        # ---- order / repetition / choice of the checked outputs (C12_decided_entries, C12_reported_once;
+        #      coq/Refuted/C12_order.v): one altered cell, two output lists of several cells in different orders
+        #      with repetitions - the altered cell carries the same entry in both, everything named depends on it;
+        #      the cells BELOW it may differ between the two runs (counted, allowed); both replayed on the model
+        try:
+            p = rng.choice(formulas)
+            v = good[p]
+            v2 = 'zz' if v != 'zz' else 'yy'
+            altered = dict(good)
+            altered[p] = v2
+            reach = [o for o in formulas if o == p or p in ancestors(wb, o)]
+            base = [rng.choice(reach)] + [rng.choice(formulas) for _ in range(rng.randrange(1, 4))]
+            outs_a = list(base)
+            rng.shuffle(outs_a)
+            outs_b = base + [rng.choice(base) for _ in range(rng.randrange(0, 3))]
+            rng.shuffle(outs_b)
+            if outs_b == outs_a:
+                outs_b = list(reversed(outs_a)) + [outs_a[0]]
+            tol = rng.choice([None, 0.001, 1])
+            wbgen.write_xlsx_with_results(wb, altered, path)
+            paddr = wb.nodes[p]['addr']
+            reps = []
+            for oi in (outs_a, outs_b):
+                outs = [wb.nodes[o]['addr'] for o in oi]
+                comp = ExcelCompiler(filename=path)
+                case = dict(call='validate', workbook=desc, args=[outs, tol], perturbed=[paddr, v, v2, 'text'],
+                            stream='order')
+                try:
+                    rep = quiet(comp.validate_calcs, output_addrs=outs, tolerance=tol)
+                except Exception as exc:      # noqa: BLE001
+                    ctx.violation(case, f"validate_calcs raises {type(exc).__name__}: {exc}"[:200])
+                    continue
+                ctx.count(('order', k, p, tol, tuple(oi)), kind='order:run')
+                record(batch, case, wb, altered, comp, rep, outs, tol)
+                mism = rep.get('mismatch', {})
+                reps.append(mism)
+                if paddr not in mism:
+                    ctx.violation(case, "the altered cell is not reported as a mismatch (several outputs)",
+                                  impl=repr(rep)[:300], expected=paddr)
+                elif canon(mism[paddr].original) != canon(v2) or canon(mism[paddr].calced) != canon(v):
+                    ctx.violation(case, "the mismatch does not carry the stored and the recomputed value "
+                                        "(several outputs)",
+                                  impl=[canon(mism[paddr].original), canon(mism[paddr].calced)],
+                                  expected=[canon(v2), canon(v)])
+                for other in mism:
+                    oj = wb.index_of(other)
+                    if other != paddr and (oj is None or p not in ancestors(wb, oj)):
+                        ctx.violation(case, f"{other} is reported but does not depend on the altered cell "
+                                            "(several outputs)", impl=repr(rep)[:300])
+                if set(rep) - {'mismatch'}:
+                    ctx.violation(case, "unexpected exception / not-implemented entries", impl=repr(rep)[:300])
+            if len(reps) == 2:
+                ctx.count(('order-pair', k, p, tol, tuple(outs_a), tuple(outs_b)),
+                          kind='order:same-cells-named' if set(reps[0]) == set(reps[1])
+                          else 'order:dependants-named-differ (allowed, Refuted/C12_order.v)')
+        except Exception as exc:      # noqa: BLE001
+            ctx.broke('harness: order stream failed', repr(exc))
         # ---- correspondence-only streams (model and implementation agree; see coq/Refuted/C12_*.v)
         try:
             wbgen.write_xlsx_with_results(wb, good, path)
